@@ -86,6 +86,8 @@ PARSE_IDS_MEMS = ["V6b_api2.build_memories.*", "V6b_api2.fn:Module::build_memori
 PARSE_IDS_GLUE = "that the three re-indexing preconditions hold for a freshly parsed module is decided for each index space on the code that builds it at the end of parse_internal (functions: V10 region build_functions; globals: ModuleGlobals::new; memories: V6b region build_memories - ids are positions, imports first, counters = numbers of imports of each kind); that these pieces are put into the Module unchanged (the struct literal at the end of parse_internal) is read off the text"
 V13_CONSTEXPR = ["V13_constexpr.to_wasmencoder_type.*", "V13_constexpr.fn:InitExpr::to_wasmencoder_type"]
 V13_TRUST = "TRUSTED model of wasm-encoder's instruction encoder (V13): a byte buffer is viewed as the sequence of constant instructions encoded into it and `<instruction>.encode(&mut bytes)` appends one; rule R26 writes each such expression as a call of a named emitter (one per variant / field order), so which variant is written with which operands is read off the code; ConstExpr::raw keeps the bytes; wasmparser's UnpackedIndex is one of module index / rec-group index / core type id"
+V14_TYPES = ["V14_types_emit.encode_type.*", "V14_types_emit.fn:encode_type", "V14_types_emit.StorageType.from.*", "V14_types_emit.fn:StorageType as From::from"]
+V14_TRUST = "TRUSTED in V14: wasm_encoder::FuncType::new and the StructType literal hold exactly the lists they are given (named constructors, rule R11); wasm_encoder::ValType::from(&DataType) is an uninterpreted we_valtype_of (its exactness: Kani K1); PackedIndex::as_module_index is an uninterpreted observer; a continuation type cannot be written out (`todo!()`: precondition - stack switching is outside the feature profile of C01)"
 V12_CUSTOM = ["V12_sections.encode_custom_sections.*", "V12_sections.fn:Module::encode_custom_sections", "V12_sections.fn:CustomSections::iter"]
 V12_TRUST = ["TRUSTED model of the wasm-encoder section builders (V12): an export / data / custom section under construction is the sequence of entries handed to it; ExportKind::from(ExternalKind) is faithful; InitExpr::to_wasmencoder_type is faithful (assumed in V12; PROVED in V13 against the instruction-encoder model, numeric constants also by Kani K4, the index-carrying ones by Kani K6 in the thorough tier)",
              "V12 names three expressions of the data loop and one statement of the custom-section loop by rule R11 (iterator adapters / generic builders are outside Verus): their contracts are assumed; V12 assumes the InitInstr::fix_id_mapping contract that V3 proves",
@@ -98,25 +100,25 @@ V11_TRUST = ["TRUSTED model of wasm-encoder (V11): a function body under constru
 PROPS = {
     "C01": {
         "title": "Unmodified parse-then-encode yields a valid module",
-        "units": ["V9b_conv", "V12_sections", "V10_parse"],
+        "units": ["V9b_conv", "V12_sections", "V10_parse", "V14_types_emit"],
         "kani": ["k1_valtype_roundtrip", "k1_valtype_roundtrip_exn_cont", "k1_valtype_encoder_matches_upstream"],
         "obligations": ["K:k1_*", "V9b_conv.*.into_wasmparser.*", "V9b_conv.fn:* as From::from"],
-        "obligations_extra": V12_TAGS + V12_TABLES + V12_ELEMS + V12_CEXPR + V10_PARSE_SECTIONS,
-        "glue": ["of Module::parse_internal the import, function, memory, global, export, element, data and tag arms are under contract (V10, against a trusted model of the section readers); of Module::encode_internal the tag, table and element sections are (V12 regions: every stored tag / table / element segment is re-emitted in order with its own kind, type and contents; wasm-encoder's section builders and the heap-type re-encoding are TRUSTED models), the other sections are claimed by the properties they matter for; `passes validation` is a predicate of wasmparser's validator over bytes produced there: not decided",
+        "obligations_extra": V14_TYPES + V12_TAGS + V12_TABLES + V12_ELEMS + V12_CEXPR + V10_PARSE_SECTIONS,
+        "glue": [V14_TRUST] + ["of Module::parse_internal the import, function, memory, global, export, element, data and tag arms are under contract (V10, against a trusted model of the section readers); of Module::encode_internal the tag, table and element sections are (V12 regions: every stored tag / table / element segment is re-emitted in order with its own kind, type and contents; wasm-encoder's section builders and the heap-type re-encoding are TRUSTED models), the other sections are claimed by the properties they matter for; `passes validation` is a predicate of wasmparser's validator over bytes produced there: not decided",
                  "profile of K1: numeric and vector types, unshared abstract heap types, concrete module type indices < 2^20; `shared` heap types and RecGroup/Id indices are outside it"],
         "design_ref": "DESIGN.md §4 K1, §5 C01",
         "level_text": "The library's own type-conversion layer and the re-emission of the tag, table and element sections: every value type of the profile survives ValType -> DataType -> ValType unchanged and is re-emitted as exactly the wasm-encoder type upstream's re-encoder produces (Kani, complete over the profile); heap-type and block-type conversions are proved exact (Verus).",
     },
     "C02": {
         "title": "Unmodified round trip preserves module content",
-        "units": ["V3_remap", "V9b_conv", "V11_emit", "V12_sections", "V10_parse", "V13_constexpr"],
-        "obligations_extra": V13_CONSTEXPR + V10_PARSE_SECTIONS + V11_EMIT + V11_CODE + V12_TAGS + V12_TABLES + V12_ELEMS + V12_CEXPR + V12_IMPORTS + V12_EXPORTS + V12_START + V12_DATA + V12_GLOBALS + V12_MEMS + V12_CUSTOM
+        "units": ["V3_remap", "V9b_conv", "V11_emit", "V12_sections", "V10_parse", "V13_constexpr", "V14_types_emit"],
+        "obligations_extra": V14_TYPES + V13_CONSTEXPR + V10_PARSE_SECTIONS + V11_EMIT + V11_CODE + V12_TAGS + V12_TABLES + V12_ELEMS + V12_CEXPR + V12_IMPORTS + V12_EXPORTS + V12_START + V12_DATA + V12_GLOBALS + V12_MEMS + V12_CUSTOM
                              + ["V12_sections.encode_type_section.groups_in_order_explicit_ones_as_one_rec_entry", "V12_sections.fn:Module::encode_type_section", "V12_sections.encode_names.*", "V12_sections.fn:Module::encode_names"],
         "kani": ["k1_valtype_roundtrip", "k1_valtype_roundtrip_exn_cont", "k1_valtype_encoder_matches_upstream", "k4_v128_bytes_preserved", "k4_ieee32_from_float_bits", "k4_ieee64_from_float_bits"],
         "kani_thorough": ["k5_spec_global_get", "k5_spec_ref_func", "k5_spec_struct_new", "k5_spec_struct_new_default", "k5_spec_array_new", "k5_spec_array_new_default", "k5_spec_ref_i31"],   # about 4 min of CBMC together: thorough tier only
         "obligations": ["K:k5_spec_*"] + ["K:k1_*", "K:k4_*", "V3_remap.lemma.identity_remap_is_noop", "V3_remap.fn:lemma_identity_remap_is_noop", "V3_remap.fix_op_id_mapping.*", "V3_remap.fn:fix_op_id_mapping", "V3_remap.update_*", "V3_remap.fn:update_*", "V3_remap.refers_to_*", "V3_remap.fn:refers_to_*",
                         "V9b_conv.*.into_wasmparser.*", "V9b_conv.fn:* as From::from"],
-        "glue": [V13_TRUST] + V11_TRUST + V12_TRUST + ["of parse_internal the import, function, memory, global, export, element, data and tag arms are regions under contract, with InitExpr::eval (every constant instruction is read into its IR counterpart with its own immediates in their own positions; anything else is an error) (the import arm with ModuleImports::new: each counter is the number of imports of its kind, nothing counted as added) (V10: the IR holds exactly the entries the section reader yields, in order, with their own contents, and a read error anywhere - also in an element segment's own item reader - makes the parse fail), against a TRUSTED model of wasmparser's section readers (a reader denotes a finite sequence of entries / read errors and iterating yields it front to back; `collect` of a reader is ASSUMED to gather it); the `.map(closure).collect::<Result<_, _>>()?` / `extend(..map(..))` chains of those arms are written as loops by rules R24 / R25; Result::and_then is ASSUMED with its textbook meaning; of the table arm only the number of stored tables and the error behaviour are decided (what a stored table holds is computed by a closure handed to Result::map, whose result Verus does not know without an annotation in the source); the type and code-entry arms, the start / data-count payloads, the name and custom sections are NOT under contract; of encode_internal every section's emission loop is a region under contract (V11 / V12) against TRUSTED models of wasm-encoder's section builders; that the sections are appended to the module in the standard order, and the `if !..is_empty()` guards around them, are read off the text",
+        "glue": [V14_TRUST] + [V13_TRUST] + V11_TRUST + V12_TRUST + ["of parse_internal the import, function, memory, global, export, element, data and tag arms are regions under contract, with InitExpr::eval (every constant instruction is read into its IR counterpart with its own immediates in their own positions; anything else is an error) (the import arm with ModuleImports::new: each counter is the number of imports of its kind, nothing counted as added) (V10: the IR holds exactly the entries the section reader yields, in order, with their own contents, and a read error anywhere - also in an element segment's own item reader - makes the parse fail), against a TRUSTED model of wasmparser's section readers (a reader denotes a finite sequence of entries / read errors and iterating yields it front to back; `collect` of a reader is ASSUMED to gather it); the `.map(closure).collect::<Result<_, _>>()?` / `extend(..map(..))` chains of those arms are written as loops by rules R24 / R25; Result::and_then is ASSUMED with its textbook meaning; of the table arm only the number of stored tables and the error behaviour are decided (what a stored table holds is computed by a closure handed to Result::map, whose result Verus does not know without an annotation in the source); the type and code-entry arms, the start / data-count payloads, the name and custom sections are NOT under contract; of encode_internal every section's emission loop is a region under contract (V11 / V12) against TRUSTED models of wasm-encoder's section builders; that the sections are appended to the module in the standard order, and the `if !..is_empty()` guards around them, are read off the text",
                  "InitExpr::eval / to_wasmencoder_type (constant expressions) are not under contract: only the bit-exactness of the float / v128 wrappers they use is proved"],
         "design_ref": "DESIGN.md §4 K1 K4, §5 C02",
         "level_text": "Instructions survive encode's in-place id rewrite when nothing was edited (identity maps leave every operator unchanged: corollary of the exact remap contract), value types survive the IR, float / v128 constants keep their bits. Of the sections, the ENCODE side is under contract region by region (every stored type group, import, function type index, table, memory, tag, global, export, start function, element segment, function body, data segment and custom section is emitted in stored order with its own contents); of the PARSE side the import, function, memory, global, export, element, data and tag arms are under contract (the IR holds exactly what the section readers yield, in order), the other arms are glue.",
@@ -150,10 +152,10 @@ PROPS = {
     },
     "C13": {
         "title": "Added types are exact and deduplicated",
-        "units": ["V7_types", "V12_sections"],
+        "units": ["V7_types", "V12_sections", "V14_types_emit"],
         "obligations": ["V7_types.add_*", "V7_types.fn:ModuleTypes::add_*", "V7_types.ModuleTypes.*", "V7_types.fn:ModuleTypes::new", "V7_types.fn:ModuleTypes::get", "V7_types.fn:ModuleTypes::len", "V7_types.fn:RecGroup::new"],
-        "obligations_extra": ["V12_sections.encode_type_section.*", "V12_sections.fn:Module::encode_type_section"],
-        "glue": ["recursion-group emission in encode_internal and Module::encode_type (IR type -> wasm-encoder SubType) are not under contract",
+        "obligations_extra": V14_TYPES + ["V12_sections.encode_type_section.*", "V12_sections.fn:Module::encode_type_section"],
+        "glue": [V14_TRUST] + ["the recursion-group emission loop of encode_internal is a region under contract (V12) and Module::encode_type (IR type -> wasm-encoder SubType) is proved in V14: the written type says what the IR type says (finality, supertype, sharedness, parameter / result / field types in order, each field with its own mutability)",
                  "TRUSTED: the hand-written PartialEq / Hash of `Types` implement equality up to the tag (key_of), and the three HashMap<Types,TypeID> operations behave as a map over that key (contracts of tm_contains_key / tm_entry_or_insert / tm_insert / tm_get)"],
         "design_ref": "DESIGN.md §4 V7, §5 C13",
         "level_text": "Over an abstract map keyed by 'type up to tag': every adder returns an id that designates exactly the requested type, re-uses the id of an identical type, gives a new type the next id in its own implicit group, and leaves every existing (id, type) pair unchanged; for all tables and all types.",
